@@ -108,7 +108,7 @@ def run(tier, seed):
         pre, expr = catalogue.render_call(c)
         cname, tmpl = CONTEXTS[k // stride % 3]
         cases.append((f"call={catalogue.call_key(c)} ctx={cname}", tmpl.format(defs=pre, e=expr)))
-    gp, gsrcs = refrun.gen_programs(seed, 60 if tier == "quick" else 600, 4, err_rate=1.5, features={"session_safe": True, "ext": True})
+    gp, gsrcs = refrun.gen_programs(seed, 60 if tier == "quick" else 600, 4, err_rate=1.5, features={"session_safe": True, "ext": True, "ext2": "half"})
     tres, exp = refrun.ref_expect(gp)
     ck.add_tlc(tres)
     for p in gp:
